@@ -4,7 +4,7 @@ import ast
 from ..pygrammar import combinator_functions
 from .. import rules_grammar as rg
 from ..core import AnalysisError, src
-from ..pysym import SymExec, show, subterms, all_calls, guards_of
+from ..pysym import SymExec, show, subterms, all_calls, path_values, guards_of
 from ..rules_pyx import N, C, A
 
 EXPLANATION = (
@@ -61,9 +61,14 @@ def r_unary_labels(repo, rep, R='R4.3'):
     # (ii) labels per branch, and shape dependence of each deciding test
     paths = SymExec(fn).run()
     by_label = {}
-    for st, out in paths:
-        if out == 'return' and st.ret and st.ret[0] == 'const':
-            by_label.setdefault(st.ret[1], []).append(st)
+
+    class _Alt(object):
+        """one (path, conditional-expression alternative): the tests that lead to a returned value"""
+        def __init__(self, conds):
+            self.conds = [(c, p_, None) for c, p_ in conds]
+    for conds_, v in path_values(paths):
+        if v[0] == 'const':
+            by_label.setdefault(v[1], []).append(_Alt(conds_))
     rep.note('unary_labels', sorted(by_label))
     adn = {l for l in by_label if l.startswith('ADN')}
     adv = {l for l in by_label if l.startswith('ADV')}
